@@ -708,6 +708,10 @@ def c11(run):
     ospath, _ = run.emit("os", ["emit", "os"])
     run.mc_leg("mc_ostraps", "MC_OsTraps", "MC_OsTraps3.cfg" if run.tier == "thorough" else "MC_OsTraps.cfg",
                env={"OSIMG": ospath}, workers=8, timeout=3000)
+    # RP: the start states of MC_OsTraps (strings of up to 2 symbols, one register fill and condition code) on the real simulator
+    run.rp_leg("rp_ostraps", "MC_OsTraps", "MC_OsTrapsRP.cfg", "ostraps", "MC_OsTraps_ops.ndjson", env={"OSIMG": ospath},
+               verdict=["trap-return-pc", "trap-psr", "trap-user-memory", "trap-ssp", "trap-getc", "trap-out", "trap-puts",
+                        "trap-putsp", "trap-in", "trap-halt", "panic"], workers=8)
     run.trace_leg("traps", ["machine", "kind=traps"],
                   verdict=["trap-return-pc", "trap-psr", "trap-user-memory", "trap-ssp", "trap-getc", "trap-out", "trap-puts",
                            "trap-putsp", "trap-in", "trap-halt", "panic"])
